@@ -371,7 +371,7 @@ func (o *ordersim) minimiseC19(rc *c19RefCache, c C19Case, class, msg string) (C
 func cmdC19(args []string) {
 	o := baseOpts("C19", args)
 	start := time.Now()
-	nProj, nHist := 10, 6
+	nProj, nHist := 12, 6
 	if o.Tier == "thorough" {
 		nProj, nHist = 150, 20
 	}
